@@ -11,6 +11,10 @@ use std::collections::{BTreeMap, HashMap};
 pub struct C19 {
     pub stage: &'static str,
     pub max_ops: usize,
+    /// long histories over a dozen generated ids (hundreds of successful removals on one
+    /// mapping), ids up to ~25000 including pairs that lie a multiple of 64 chunks apart;
+    /// iteration is compared after every successful removal (own tape layout)
+    pub long: bool,
 }
 
 #[derive(Clone, Debug)]
@@ -30,7 +34,49 @@ pub struct MHistory {
 }
 
 impl C19 {
+    fn decode_long(&self, tape: &[u16]) -> MHistory {
+        let mut t = Tape::new(tape);
+        t.enable_tail(tape.first().copied().unwrap_or(0) | 1);
+        let with_capacity = match t.below(3) {
+            0 => None,
+            1 => Some(t.below(300)),
+            _ => Some(8000 + t.below(9000)),
+        };
+        let small = t.below(300) as u32;
+        let mut ids: Vec<u32> = vec![small, small + 1, t.below(128) as u32, 128 + t.below(128) as u32, 127, 128];
+        for j in 1..=2u32 {
+            // the same slot region, a multiple of 64 chunks (8192 ids) further up
+            let near = ids[t.below(ids.len())];
+            ids.push(j * 8192 + (near & !127) + t.below(128) as u32);
+        }
+        ids.push(8192 + t.below(256) as u32);
+        ids.push(t.below(25_000) as u32);
+        ids.push(t.below(2_000) as u32);
+        ids.sort_unstable();
+        ids.dedup();
+        let n = 1 + t.below(self.max_ops);
+        let mut ops = vec![];
+        for _ in 0..n {
+            let id = ids[t.below(ids.len())];
+            let op = match t.weighted(&[50, 50, 8, 8, 10, 1]) {
+                0 => MOp::Insert(id, t.next() as u32),
+                1 => MOp::Unset(id),
+                2 => MOp::Get(id),
+                3 => MOp::GetMut(id, t.next() as u32),
+                4 => MOp::Iter,
+                _ => MOp::Serde,
+            };
+            ops.push(op);
+        }
+        ops.push(MOp::Iter);
+        ops.push(MOp::Serde);
+        MHistory { with_capacity, ops }
+    }
+
     pub fn decode(&self, tape: &[u16]) -> MHistory {
+        if self.long {
+            return self.decode_long(tape);
+        }
         let mut t = Tape::new(tape);
         let with_capacity = match t.below(4) {
             0 => None,
@@ -122,7 +168,7 @@ impl Property for C19 {
         700
     }
     fn rule(&self) -> String {
-        "tape -> construction (default / with_capacity(n)) + id distribution (dense from 0, dense from an offset, sparse below 1000, chunk-edge ids 127/128/129/255/256/.., mostly-dense with a few high ids) + history of insert / unset / get / get_mut / iter / serde round trip operations on Mapping<NameId,u32>, interpreted against a BTreeMap reference: after every operation the returned previous value, get, len and is_empty agree; on iter operations iter() must yield exactly the reference pairs in ascending id order; on serde operations from_value(to_value(m)) must hold the same pairs. Non-trivial: the stored ids are not an initial segment of the naturals, or some id >= 128, or an unset happened. Distinct = distinct hash of the history.".into()
+        "tape -> construction (default / with_capacity(n)) + id distribution (dense from 0, dense from an offset, sparse below 1000, chunk-edge ids 127/128/129/255/256/.., mostly-dense with a few high ids) + history of insert / unset / get / get_mut / iter / serde round trip operations on Mapping<NameId,u32>, interpreted against a BTreeMap reference: after every operation the returned previous value, get, len and is_empty agree; on iter operations iter() must yield exactly the reference pairs in ascending id order; on serde operations from_value(to_value(m)) must hold the same pairs. Stage long: up to 1500 operations over a dozen generated ids (small, chunk edges, up to ~25000, and pairs a multiple of 64 chunks = 8192 ids apart), insert and unset equally likely (hundreds of successful removals on one mapping), iter/len/get compared after EVERY successful removal. Non-trivial: the stored ids are not an initial segment of the naturals, or some id >= 128, or an unset happened. Distinct = distinct hash of the history.".into()
     }
     fn describe(&self, tape: &[u16]) -> String {
         format!("{:?}\n", self.decode(tape))
@@ -134,13 +180,15 @@ impl Property for C19 {
             case_hash: hash_of(&format!("{h:?}")),
             ..Default::default()
         };
-        let res = crate::run::guarded(|| -> Result<(bool, bool, bool), Failure> {
+        let long = self.long;
+        let res = crate::run::guarded(|| -> Result<(bool, bool, bool, usize), Failure> {
             let mut m: Mapping<NameId, u32> = match h.with_capacity {
                 None => Mapping::default(),
                 Some(n) => Mapping::with_capacity(n),
             };
             let mut model: BTreeMap<u32, u32> = BTreeMap::new();
             let (mut sparse, mut high, mut unset) = (false, false, false);
+            let mut removals = 0usize;
             for (i, op) in h.ops.iter().enumerate() {
                 let ctx = format!("after op #{i} {op:?}");
                 match op {
@@ -165,6 +213,10 @@ impl Property for C19 {
                                 signature: "C19:unset-return-mismatch".into(),
                                 detail: format!("{ctx}: returned {a:?}, expected {b:?}"),
                             });
+                        }
+                        if long && b.is_some() {
+                            removals += 1;
+                            check_mapping(&m, &model, &format!("{ctx} (successful removal #{removals})"))?;
                         }
                     }
                     MOp::Get(k) => {
@@ -221,10 +273,13 @@ impl Property for C19 {
                     sparse = true;
                 }
             }
-            Ok((sparse, high, unset))
+            Ok((sparse, high, unset, removals))
         });
         match res {
-            Ok(Ok((sparse, high, unset))) => {
+            Ok(Ok((sparse, high, unset, removals))) => {
+                if removals >= 256 {
+                    rep.labels.push("removals>=256");
+                }
                 if sparse {
                     rep.labels.push("non-initial-segment");
                 }
@@ -350,6 +405,11 @@ pub struct C18 {
     pub stage: &'static str,
     pub max_ops: usize,
     pub fat: bool,
+    /// > 0: the history ends with bulk phases of up to this many fresh items of ONE kind (an
+    /// arena then holds thousands of elements: dozens of chunks, several growth steps of the
+    /// chunk table) and may intern unions re-entrantly from inside the member iterator of
+    /// another union (own tape layout; the other stages' replay tapes keep their meaning)
+    pub bulk: usize,
 }
 
 #[derive(Clone, Debug)]
@@ -361,6 +421,9 @@ pub enum POp {
     InternSolvable(u32, u32),
     InternUnion(Vec<u32>),
     ResolveAll,
+    /// outer members (>= 3, passed as an exact-size iterator), inner members, and the position
+    /// of the outer member whose evaluation interns the inner union
+    InternUnionNested(Vec<u32>, Vec<u32>, usize),
 }
 
 impl C18 {
@@ -379,8 +442,9 @@ impl C18 {
             }
         };
         let mut ops = vec![];
+        let weights: [u32; 8] = if self.bulk > 0 { [4, 4, 2, 4, 4, 2, 1, 2] } else { [4, 4, 2, 4, 4, 2, 1, 0] };
         for _ in 0..n {
-            let op = match t.weighted(&[4, 4, 2, 4, 4, 2, 1]) {
+            let op = match t.weighted(&weights) {
                 0 => POp::InternString(val(&mut t)),
                 1 => POp::InternName(val(&mut t)),
                 2 => POp::LookupName(val(&mut t)),
@@ -390,7 +454,14 @@ impl C18 {
                     let k = 1 + t.below(4);
                     POp::InternUnion((0..k).map(|_| t.next() as u32).collect())
                 }
-                _ => POp::ResolveAll,
+                6 => POp::ResolveAll,
+                _ => {
+                    let k = 3 + t.below(4);
+                    let outer: Vec<u32> = (0..k).map(|_| t.next() as u32).collect();
+                    let ki = 1 + t.below(4);
+                    let inner: Vec<u32> = (0..ki).map(|_| t.next() as u32).collect();
+                    POp::InternUnionNested(outer, inner, 1 + t.below(k - 1))
+                }
             };
             ops.push(op);
         }
@@ -403,6 +474,32 @@ impl C18 {
                     1 => POp::InternName(5000 + i as u32),
                     _ => POp::InternSolvable(t.below(8) as u32, i as u32),
                 });
+            }
+        }
+        if self.bulk > 0 {
+            // one or two big single-kind phases, log-uniform in 256..=bulk, then a few more ops
+            for phase in 0..1 + t.below(2) {
+                let bits = (usize::BITS - self.bulk.leading_zeros()) as usize;
+                let e = 8 + t.below(bits.saturating_sub(8).max(1));
+                let k = ((1usize << e) + t.below(1 << e)).min(self.bulk);
+                let kind = t.below(4);
+                for i in 0..k {
+                    let v = 100_000 + (phase * 50_000 + i) as u32;
+                    ops.push(match kind {
+                        0 => POp::InternName(v),
+                        1 => POp::InternSolvable(i as u32 % 7, v),
+                        2 => POp::InternVs(i as u32 % 5, v),
+                        _ => POp::InternString(v),
+                    });
+                }
+                for _ in 0..t.below(12) {
+                    ops.push(match t.below(4) {
+                        0 => POp::InternName(val(&mut t)),
+                        1 => POp::InternSolvable(t.below(8) as u32, t.next() as u32),
+                        2 => POp::InternVs(val(&mut t), val(&mut t)),
+                        _ => POp::InternUnion(vec![t.next() as u32, t.next() as u32, t.next() as u32]),
+                    });
+                }
             }
         }
         ops.push(POp::ResolveAll);
@@ -551,6 +648,45 @@ fn c18_history<F: Flavor>(ops: &[POp]) -> Result<(usize, usize), Failure> {
                     return Err(bad("resolve-union", format!("{ctx}: resolves to {got:?}, expected {ms:?}")));
                 }
             }
+            POp::InternUnionNested(outer, inner, at) => {
+                if vsets.is_empty() {
+                    continue;
+                }
+                let nv = vsets.len() as u32;
+                let ms: Vec<u32> = outer.iter().map(|m| m % nv).collect();
+                let inner_ms: Vec<u32> = inner.iter().map(|m| m % nv).collect();
+                let inner_id = std::cell::Cell::new(None);
+                // the members are produced lazily by an exact-size iterator; producing member
+                // `at` interns another union into the same pool first (a provider that builds
+                // nested requirement structures while it iterates)
+                let id = pool.intern_version_set_union(
+                    VersionSetId(ms[0]),
+                    ms[1..].iter().enumerate().map(|(k, &m)| {
+                        if k + 1 == *at {
+                            inner_id.set(Some(pool.intern_version_set_union(
+                                VersionSetId(inner_ms[0]),
+                                inner_ms[1..].iter().map(|&m| VersionSetId(m)),
+                            )));
+                        }
+                        VersionSetId(m)
+                    }),
+                );
+                unions.push(inner_ms.clone());
+                let want_inner = unions.len() as u32 - 1;
+                unions.push(ms.clone());
+                let want = unions.len() as u32 - 1;
+                if inner_id.get() != Some(VersionSetUnionId(want_inner)) || id != VersionSetUnionId(want) {
+                    return Err(bad(
+                        "union-id",
+                        format!("{ctx}: nested interning gave inner {:?} / outer {id:?}, expected fresh dense ids {want_inner} / {want}", inner_id.get()),
+                    ));
+                }
+                let got: Vec<u32> = pool.resolve_version_set_union(id).map(|v| v.0).collect();
+                let got_inner: Vec<u32> = pool.resolve_version_set_union(VersionSetUnionId(want_inner)).map(|v| v.0).collect();
+                if got != ms || got_inner != inner_ms {
+                    return Err(bad("resolve-union", format!("{ctx}: outer resolves to {got:?} (expected {ms:?}), inner to {got_inner:?} (expected {inner_ms:?})")));
+                }
+            }
             POp::ResolveAll => {
                 for (i, s) in strings.iter().enumerate() {
                     if pool.resolve_string(StringId(i as u32)) != s {
@@ -586,7 +722,23 @@ fn c18_history<F: Flavor>(ops: &[POp]) -> Result<(usize, usize), Failure> {
         if after > before {
             boundaries += 1;
             held_across = held_across.max(held.len());
-            // every reference handed out so far must still read the same value
+            // every reference handed out so far must still be where it was (checked first: a
+            // reference into storage that was moved must not be dereferenced) ...
+            for h in &held {
+                let mut it = h.what.rsplitn(2, ' ');
+                let id: u32 = it.next().and_then(|x| x.parse().ok()).unwrap_or(0);
+                let now = match it.next().unwrap_or("") {
+                    "string" => pool.resolve_string(StringId(id)).as_ptr() as usize,
+                    "name" => pool.resolve_package_name(NameId(id)) as *const F::Name as usize,
+                    "version set" => pool.resolve_version_set(VersionSetId(id)) as *const F::Vs as usize,
+                    "solvable" => &pool.resolve_solvable(SolvableId(id)).record as *const F::Rec as usize,
+                    _ => h.addr,
+                };
+                if now != h.addr {
+                    return Err(bad("address-moved", format!("{ctx}: {} moved in memory while further items were interned", h.what)));
+                }
+            }
+            // ... and still read the same value
             for h in &held {
                 if !(h.still_reads)() {
                     return Err(bad(
@@ -597,12 +749,7 @@ fn c18_history<F: Flavor>(ops: &[POp]) -> Result<(usize, usize), Failure> {
             }
         }
     }
-    // final: all held references intact and stable addresses
-    for h in &held {
-        if !(h.still_reads)() {
-            return Err(bad("held-reference-changed", format!("final: reference to {} changed", h.what)));
-        }
-    }
+    // final: stable addresses (first), then all held references intact
     let by_what: HashMap<&str, usize> = held.iter().map(|h| (h.what.as_str(), h.addr)).collect();
     for (i, s) in strings.iter().enumerate() {
         let r = pool.resolve_string(StringId(i as u32));
@@ -620,12 +767,25 @@ fn c18_history<F: Flavor>(ops: &[POp]) -> Result<(usize, usize), Failure> {
             }
         }
     }
+    for i in 0..vsets.len() {
+        let r = pool.resolve_version_set(VersionSetId(i as u32));
+        if let Some(&a) = by_what.get(format!("version set {i}").as_str()) {
+            if a != r as *const F::Vs as usize {
+                return Err(bad("address-moved", format!("version set {i} moved in memory")));
+            }
+        }
+    }
     for i in 0..solvables.len() {
         let r = pool.resolve_solvable(SolvableId(i as u32));
         if let Some(&a) = by_what.get(format!("solvable {i}").as_str()) {
             if a != &r.record as *const F::Rec as usize {
                 return Err(bad("address-moved", format!("solvable {i} moved in memory")));
             }
+        }
+    }
+    for h in &held {
+        if !(h.still_reads)() {
+            return Err(bad("held-reference-changed", format!("final: reference to {} changed", h.what)));
         }
     }
     Ok((boundaries, held_across))
@@ -642,7 +802,7 @@ impl Property for C18 {
         1500
     }
     fn rule(&self) -> String {
-        "tape -> history of intern_string / intern_package_name / lookup_package_name / intern_version_set / intern_solvable / intern_version_set_union / resolve_* calls on a Pool, with values from a small alphabet (frequent re-interning) and fresh values (arenas cross several 128-element chunks, maps rehash), interpreted against HashMap/Vec reference models: equal values share ids, new values get the next dense id, solvable and union ids are always fresh and dense, resolve/lookup return exactly what was interned; REFERENCES (&str, &Name, &VersionSet, &Solvable) obtained from the pool are held across all later insertions and must keep their address and contents. Stage main uses Pool<Vs(u32),String> with u32 records and short strings; stage fat uses 100..160-byte version sets and records, strings of 64..200 bytes that share long prefixes, and a package-name type whose Hash is coarser than its Eq (legal; the pool must still tell such names apart). Non-trivial: the history crosses >=2 chunk boundaries with >=10 references held across them. Distinct = distinct hash of the history.".into()
+        "tape -> history of intern_string / intern_package_name / lookup_package_name / intern_version_set / intern_solvable / intern_version_set_union / resolve_* calls on a Pool, with values from a small alphabet (frequent re-interning) and fresh values (arenas cross several 128-element chunks, maps rehash), interpreted against HashMap/Vec reference models: equal values share ids, new values get the next dense id, solvable and union ids are always fresh and dense, resolve/lookup return exactly what was interned; REFERENCES (&str, &Name, &VersionSet, &Solvable) obtained from the pool are held across all later insertions and must keep their address and contents. Stage main uses Pool<Vs(u32),String> with u32 records and short strings; stage fat uses 100..160-byte version sets and records, strings of 64..200 bytes that share long prefixes, and a package-name type whose Hash is coarser than its Eq (legal; the pool must still tell such names apart). Stage bulk ends histories with one or two single-kind phases of 256..12000 fresh items (one arena then spans up to ~90 chunks and several growth steps of its chunk table) and interns unions re-entrantly from inside the exact-size member iterator of another union (inner id first, both dense, both resolvable). Non-trivial: the history crosses >=2 chunk boundaries with >=10 references held across them. Distinct = distinct hash of the history.".into()
     }
     fn describe(&self, tape: &[u16]) -> String {
         let ops = self.decode(tape);
